@@ -719,6 +719,9 @@ func (s *Sym) evCall(env *Env, x ECall) TV {
 		return TV{T: fmt.Sprintf("(select %s %s)", a[0].T, a[1].T), S: arrayElemSort(a[0].S)}
 	case "upd":
 		a := argv()
+		if a[2].S == "Nil" && strings.HasPrefix(a[0].S, "(Array ") {
+			a[2] = TV{T: zeroOf(arrayElemSort(a[0].S)), S: arrayElemSort(a[0].S)}
+		}
 		return TV{T: fmt.Sprintf("(store %s %s %s)", a[0].T, a[1].T, a[2].T), S: a[0].S}
 	case "min":
 		a := argv()
@@ -781,6 +784,13 @@ func (s *Sym) evCall(env *Env, x ECall) TV {
 		}
 		m := s.getMap(env.st, "E:"+sortTag(es), "(Array Int "+mapSortOfElem(es)+")")
 		return TV{T: fmt.Sprintf("(select %s (sl-arr %s))", m, a[0].T), S: mapSortOfElem(es)}
+	case "zeromap": // zeromap(keySort, valSort): the array that maps every key to the zero value
+		if len(x.Args) != 2 {
+			bad("zeromap(keySort, valSort)")
+		}
+		ks, _ := s.P.specType(typeArgString(x.Args[0]))
+		vs, _ := s.P.specType(typeArgString(x.Args[1]))
+		return TV{T: s.constArray(ks, vs), S: "(Array " + ks + " " + vs + ")"}
 	case "allocTop": // allocation watermark of the current state (all allocated references are <= it)
 		return TV{T: s.top(env.st), S: "Int"}
 	case "isfresh": // reference allocated after the old state
@@ -791,12 +801,19 @@ func (s *Sym) evCall(env *Env, x ECall) TV {
 		return TV{T: fmt.Sprintf("(and (> %s %s) (<= %s %s))", a[0].T, s.top(env.old), a[0].T, s.top(env.st)), S: "Bool"}
 	case "boxed": // the interface value MakeInterface builds from a typed value
 		a := argv()
+		if a[0].GT == nil && a[0].S == "Str" {
+			a[0].GT = types.Typ[types.String]
+		}
 		if a[0].GT == nil {
 			bad("boxed() needs a value with a Go type")
 		}
 		fr := s.newFrame(s.Top, 0)
 		payload := fr.box(a[0], env.st)
 		return TV{T: fmt.Sprintf("(mk-iface %s %s)", s.typeID(a[0].GT), payload), S: "Iface"}
+	case "unboxStr": // the string an interface value holds (meaningful when its dynamic type is string)
+		a := argv()
+		fr := s.newFrame(s.Top, 0)
+		return fr.unbox("(ival "+a[0].T+")", types.Typ[types.String])
 	case "ifacePtr": // payload reference of an interface value
 		a := argv()
 		return TV{T: "(ival " + a[0].T + ")", S: "Int"}
